@@ -211,10 +211,14 @@ pub fn candles_burst_flat(rng: &mut Rng, len: usize) -> Vec<Candle> {
 	// absolute tick-sized steps, or relative ones of about a tenth of the price (values then change binade often, which is
 	// what gives the residues of two running sums opposite signs)
 	let step = if rng.chance(1, 2) { *rng.pick(&[0.05, 0.5, 2.5]) } else { 0.12 * p };
+	// a third of the cases: log-normal moves of about a third of the level (the regime that exposed Vidya's unbounded |CMO|)
+	let lognormal = rng.chance(1, 3);
+	let step = if lognormal { 0.3 * p } else { step };
 	let mut out = Vec::with_capacity(len);
 	for i in 0..len {
 		if i < m {
-			let q = ((p + step * rng.gauss()).max(0.5) * grid).round() / grid;
+			let q = if lognormal { p * (0.35 * rng.gauss()).exp() } else { p + step * rng.gauss() };
+			let q = (q.max(0.5).min(9.0e5) * grid).round() / grid;
 			let (hi, lo) = (p.max(q), p.min(q));
 			let high = ((hi + step * 0.3 * rng.unit()) * grid).round() / grid;
 			let low = (((lo - step * 0.3 * rng.unit()).max(0.25)) * grid).round() / grid;
